@@ -12,7 +12,7 @@ Expression trees are tuples:
   ('phi', loc, (defids...))           several definitions reach
   ('undef', loc)
 """
-import json
+import json, re
 from facts import op_place
 
 MAXDEPTH = 80
@@ -204,6 +204,11 @@ class Sym:
             callee = ('indirect', self.operand_at(fo, pos)) if fo else '?'
         args = tuple(self.operand_at(a, pos) for a in t['args'])
         e = ('call', callee, args, (fn.path, bid))
+        if isinstance(callee, str) and len(args) == 1:
+            m = _NUM_FROM.match(callee)
+            if m:
+                # lossless integer conversion spelled as a call: `usize::from(b)`, `u64::from(x)` are the casts `b as usize`, `x as u64`
+                e = ('cast', args[0], m.group(2), 'IntToInt', m.group(1))
         self._memo[key] = e
         return e
 
@@ -510,6 +515,9 @@ def map_children(e, f):
     if h == 'index' and isinstance(e[2], tuple):
         return ('index', f(e[1]), f(e[2]))
     return (h, f(e[1])) + tuple(e[2:])
+
+
+_NUM_FROM = re.compile(r'^std::convert::num::<impl std::convert::From<(bool|u8|u16|u32|u64|usize)> for (u16|u32|u64|u128|usize)>::from$')
 
 
 def subst(e, m):
